@@ -1,9 +1,11 @@
 //! vh — conformance harness binding the TLA+ specifications in /verif/spec to the real
 //! gm-quic code.  Sub-commands replay TLC-generated behaviours into real objects and record
 //! NDJSON traces that the Trace_*.tla specifications validate.
+mod localcids;
 mod pncodec;
 mod rcvdjournal;
 mod recvbuf;
+mod remotecids;
 mod sendbuf;
 mod sentjournal;
 mod util;
@@ -21,6 +23,8 @@ fn main() {
         "sentjournal-replay" => sentjournal::replay(rest),
         "rcvdjournal-replay" => rcvdjournal::replay(rest),
         "rcvdjournal-random" => rcvdjournal::random(rest),
+        "localcids-replay" => localcids::replay(rest),
+        "remotecids-replay" => remotecids::replay(rest),
         "pncodec" => pncodec::run(rest),
         "recvbuf-replay" => recvbuf::replay(rest),
         "recvbuf-random" => recvbuf::random(rest),
